@@ -50,11 +50,13 @@ def norm_effect(mn, f):
     return effect(mn, f)
 
 
-def check_rules(rep, facts, rel, rule_sem, rule_acc, tier):
+def check_rules(rep, facts, rel, rule_sem, rule_acc, tier, only_names=None):
     sums = all_summaries(facts)
     item = rel.pa.item
     total = 0
     for ru in rel.rules:
+        if only_names is not None and ru.name not in only_names:
+            continue
         con = rel.constructions.get(ru.key)
         if con is None:
             rep.fail(Finding(rule_sem, 'transform_compressible', 'rule ' + ru.key, 'criteria rule {!r} has no construction arm'.format(ru.key),
@@ -192,8 +194,10 @@ def check_rounds(rep, facts, rule):
                   lambda ci=ci: Finding(rule, 'assemble', 'pipeline', 'a compression round runs before register aliases of the items it sees are resolved', line=fn.lineno))
     for i, (n, g) in enumerate(order):
         if n == 'transform_compressible':
-            rep.check(g == 'compress', rule, 'compression only when requested',
-                      lambda: Finding(rule, 'assemble', 'pipeline', 'transform_compressible is not guarded by the compress option', line=fn.lineno), nontrivial=False)
+            rep.check(g == 'compress', rule, 'a compression round runs exactly when compression is requested',
+                      lambda g=g: Finding(rule, 'assemble', 'pipeline', 'transform_compressible runs under the guard `{}` instead of exactly when the compress option is set: '
+                                          '{}'.format(g, 'with -c some runs skip the round and eligible instructions stay 32 bits wide' if g.startswith('compress') else
+                                                      'programs are compressed although compression was not requested'), line=fn.lineno), nontrivial=False)
 
 
 def run(repo, tier):
@@ -207,8 +211,8 @@ def run(repo, tier):
                  'instruction; the region must lie inside the encoder\'s accepted set; label shift of exactly 2 on replacing paths; '
                  'encode-time re-validation of every masked operand; R-auipc; order of the two rounds.')
     rep.trusted_base = ['CPython ast', 'bbverif.comprel / pathwalk / bitdom', 'RVC oracle (decode + expansion table)']
-    rep.not_decided = ['a compressed form chosen on a label-dependent immediate whose value changes when labels move afterwards '
-                       '(with encode-time re-validation this surfaces as a refusal, C12, except for rules that drop the immediate)']
+    rep.not_decided = ['a compressed form that keeps its immediate but was chosen on a label-dependent value that changes when labels move '
+                       'afterwards (encode-time re-validation turns this into a refusal, see C12; rules that drop the immediate are decided by R4.8)']
     rel = CompRel(facts)
     rep.count('criteria rules', len(rel.rules))
     rep.count('predicate factories lifted', len(rel.factories))
@@ -225,7 +229,10 @@ def run(repo, tier):
     check_rounds(rep, facts, 'R4.6.rounds')
     from .. import labelrules as _LB
     _LB.check_live_env(rep, facts, 'R4.7.live-env')
-    rep.floor('criteria rules', 29)
-    rep.floor('predicate factories lifted', 9)
+    from ..comprel import check_final_immediates
+    check_final_immediates(rep, rel, 'R4.8.final-immediate')
+    rep.floor('criteria rules', 20)
+    rep.floor('predicate factories lifted', 3)
     rep.floor('region tuples enumerated', 20000)
+    rep.floor('immediate-dropping rules', 2)
     return rep
